@@ -276,11 +276,23 @@ class BuildError(Exception):
     pass
 
 
+def _big_stack():
+    import resource
+    try:
+        resource.setrlimit(resource.RLIMIT_STACK, (resource.RLIM_INFINITY, resource.RLIM_INFINITY))
+    except Exception:
+        try:
+            soft, hard = resource.getrlimit(resource.RLIMIT_STACK)
+            resource.setrlimit(resource.RLIMIT_STACK, (hard, hard))
+        except Exception:
+            pass
+
+
 def run_lines(exe, lines, timeout=600, args=(), env=None):
     """Run exe with the case lines on stdin; return list of output lines (one per case expected)."""
     data = ("\n".join(lines) + "\n").encode()
     p = subprocess.run([exe] + list(args), input=data, stdout=subprocess.PIPE, stderr=subprocess.PIPE,
-                       timeout=timeout, env=env)
+                       timeout=timeout, env=env, preexec_fn=_big_stack)
     out = p.stdout.decode("latin-1").split("\n")
     if out and out[-1] == "":
         out.pop()
@@ -296,7 +308,7 @@ def run_lines_sharded(exe, lines, shards=None, timeout=900, args=()):
     parts = [lines[i:i + n] for i in range(0, len(lines), n)]
     procs = []
     for part in parts:
-        p = subprocess.Popen([exe] + list(args), stdin=subprocess.PIPE, stdout=subprocess.PIPE, stderr=subprocess.PIPE)
+        p = subprocess.Popen([exe] + list(args), stdin=subprocess.PIPE, stdout=subprocess.PIPE, stderr=subprocess.PIPE, preexec_fn=_big_stack)
         procs.append((p, part))
     import threading
     results = [None] * len(procs)
